@@ -700,3 +700,164 @@ Proof.
   intros Wa Wa' Wb Wb' Ha Hb. apply bool_eq_of_iff. rewrite !equal_iff by assumption.
   apply ds_rel_same; assumption.
 Qed.
+
+(* ------------------------------------------------------------------ 9. the 18 helpers one by one; the order of the walk *)
+Theorem equal_is_conjunction a b : equal a b = forallb (fun x => x) (answers a b).
+Proof. unfold equal, equal_with, answers, answer, answer_with. induction walk as [|p w IH]; cbn; [reflexivity | rewrite IH; reflexivity]. Qed.
+
+Lemma answers_length a b : List.length (answers a b) = 18%nat.
+Proof. unfold answers. rewrite map_length. reflexivity. Qed.
+
+Theorem answer_iff p a b : wf_ds a -> wf_ds b -> (answer p a b = true <-> orel part_rel_q (get p a) (get p b)).
+Proof.
+  intros Wa Wb. unfold answer, answer_with. apply opt_part_equal_spec; [apply set_equal_spec | |]; intros v E; [eapply Wa | eapply Wb]; exact E.
+Qed.
+
+Theorem answer_sym p a b : wf_ds a -> wf_ds b -> answer p a b = answer p b a.
+Proof.
+  intros Wa Wb. apply bool_eq_of_iff. rewrite !answer_iff by assumption.
+  split; apply orel_sym; apply part_rel_sym;
+    auto using set_equal_spec, pose_close_q_sym, isclose_sym_sym.
+Qed.
+
+(* a helper looks at its own part only *)
+Theorem answer_local p a a' b b' : get p a = get p a' -> get p b = get p b' -> answer p a b = answer p a' b'.
+Proof. unfold answer, answer_with. intros -> ->. reflexivity. Qed.
+
+(* the order in which equal_kapture visits the parts (and visiting one twice) does not matter *)
+Theorem walk_order_irrelevant pc nc se (w : list part_id) a b : (forall p, In p w) ->
+  equal_with pc nc se w a b = equal_with pc nc se walk a b.
+Proof.
+  intros H. apply bool_eq_of_iff. unfold equal_with. rewrite !forallb_forall.
+  split; intros F p _; apply F; [apply H | apply all_in_walk].
+Qed.
+
+(* ------------------------------------------------------------------ 10. the error branch *)
+Theorem helper_call_typeerr h x y :
+  helper_call h x y = TypeErr <-> typed_helper h = true /\ (foreign h x = true \/ foreign h y = true).
+Proof.
+  unfold helper_call, helper_call_with. destruct (typed_helper h); cbn [andb].
+  - destruct (foreign h x), (foreign h y); cbn; split; try discriminate; try tauto; intros [_ [?|?]]; discriminate.
+  - split; [discriminate | intros [? _]; discriminate].
+Qed.
+
+Theorem helper_call_never_other h x y : helper_call h x y <> OtherErr.
+Proof. unfold helper_call, helper_call_with. destruct (typed_helper h && _); discriminate. Qed.
+
+Theorem helper_call_typeerr_sym h x y : helper_call h x y = TypeErr <-> helper_call h y x = TypeErr.
+Proof. rewrite !helper_call_typeerr. tauto. Qed.
+
+(* with arguments of the helper's own class (or None) the helper answers what the part comparison says *)
+Theorem helper_call_own h (x y : option part) :
+  helper_call h (option_map (fun v => (h, v)) x) (option_map (fun v => (h, v)) y)
+  = Ans (opt_equal (part_equal pose_close_q isclose_sym set_equal h) x y).
+Proof.
+  unfold helper_call, helper_call_with.
+  assert (F : forall z : option part, foreign h (option_map (fun v => (h, v)) z) = false)
+    by (intros [v|]; cbn; [rewrite eqb_refl|]; reflexivity).
+  assert (S : forall z : option part, option_map snd (option_map (fun v => (h, v)) z) = z) by (intros [v|]; reflexivity).
+  rewrite !F, !S, andb_false_r. reflexivity.
+Qed.
+
+(* a typed helper never answers True (nor False) when handed an object of another class: it raises *)
+Theorem helper_call_foreign h x y b : typed_helper h = true -> foreign h x = true \/ foreign h y = true ->
+  helper_call h x y <> Ans b.
+Proof. intros T F E. assert (X : helper_call h x y = TypeErr) by (apply helper_call_typeerr; auto). congruence. Qed.
+
+Lemma lookup_untag p (d : tdataset) : get p (untag d) = option_map snd (lookup p d).
+Proof.
+  unfold get, untag. induction d as [|[q [c x]] d IH]; cbn; [reflexivity|].
+  destruct (eqb p q); [reflexivity | exact IH].
+Qed.
+
+Lemma own_class_not_foreign d p : own_class d -> foreign p (lookup p d) = false.
+Proof.
+  intros O. destruct (lookup p d) as [[c x]|] eqn:E; cbn; [|reflexivity].
+  rewrite (O _ _ _ E), eqb_refl. reflexivity.
+Qed.
+
+(* on datasets whose every attribute holds an object of its own class (what the setters of kapture.Kapture
+   enforce) the walk never reaches the error branch: its outcome is the boolean of the model *)
+Theorem walk_outcome_typed w a b : own_class a -> own_class b ->
+  walk_outcome w a b = Ans (equal_with pose_close_q isclose_sym set_equal w (untag a) (untag b)).
+Proof.
+  intros Oa Ob. induction w as [|p w IH]; cbn; [reflexivity|].
+  unfold helper_call, helper_call_with. rewrite (own_class_not_foreign a p Oa), (own_class_not_foreign b p Ob), andb_false_r.
+  rewrite !lookup_untag.
+  destruct (opt_equal _ _ _); cbn; [exact IH | reflexivity].
+Qed.
+
+Theorem equal_outcome_typed a b : own_class a -> own_class b -> equal_outcome a b = Ans (equal (untag a) (untag b)).
+Proof. apply walk_outcome_typed. Qed.
+
+(* and when an attribute was forced to a foreign class behind the setters: the outcome is never Ans true *)
+Theorem walk_outcome_foreign w a b p : In p w -> typed_helper p = true ->
+  foreign p (lookup p a) = true \/ foreign p (lookup p b) = true -> walk_outcome w a b <> Ans true.
+Proof.
+  intros I T F. induction w as [|q w IH]; [contradiction|]. cbn.
+  destruct I as [->|I].
+  - assert (X : helper_call p (lookup p a) (lookup p b) = TypeErr) by (apply helper_call_typeerr; auto).
+    rewrite X. discriminate.
+  - destruct (helper_call q (lookup q a) (lookup q b)) as [[|]| |]; try discriminate. auto.
+Qed.
+
+(* ------------------------------------------------------------------ 11. the same change on both sides; undo *)
+Section Congruence.
+  Notation mrel := (map_rel pose_close_q isclose_sym set_equal).
+  Let vrefl := val_rel_refl pose_close_q isclose_sym set_equal set_equal_spec pose_close_q_refl isclose_sym_refl.
+
+  Lemma ds_rel_insert_both a b p x y : ds_rel_q a b -> part_rel_q x y -> ds_rel_q (insert p x a) (insert p y b).
+  Proof.
+    intros H R q. rewrite !get_insert. destruct (eqb q p); [exact R | apply H].
+  Qed.
+
+  Theorem same_entry_written_both_sides a b p m m' k v : wf_ds a -> wf_ds b ->
+    get p a = Some (PMap m) -> get p b = Some (PMap m') -> equal a b = true ->
+    equal (insert p (PMap (insert k v m)) a) (insert p (PMap (insert k v m')) b) = true.
+  Proof.
+    intros Wa Wb Ga Gb E. apply equal_iff in E; try assumption.
+    apply equal_iff.
+    - apply wf_ds_insert; [assumption | cbn; apply wf_insert; apply (Wa _ _ Ga)].
+    - apply wf_ds_insert; [assumption | cbn; apply wf_insert; apply (Wb _ _ Gb)].
+    - apply ds_rel_insert_both; [assumption|]. cbn. intros k'. rewrite !lookup_insert.
+      destruct (eqb k' k); [cbn; apply vrefl|]. specialize (E p). rewrite Ga, Gb in E. apply E.
+  Qed.
+
+  Theorem same_entry_removed_both_sides a b p m m' k : wf_ds a -> wf_ds b ->
+    get p a = Some (PMap m) -> get p b = Some (PMap m') -> equal a b = true ->
+    equal (insert p (PMap (remove k m)) a) (insert p (PMap (remove k m')) b) = true.
+  Proof.
+    intros Wa Wb Ga Gb E. apply equal_iff in E; try assumption.
+    apply equal_iff.
+    - apply wf_ds_insert; [assumption | cbn; apply wf_remove; apply (Wa _ _ Ga)].
+    - apply wf_ds_insert; [assumption | cbn; apply wf_remove; apply (Wb _ _ Gb)].
+    - apply ds_rel_insert_both; [assumption|]. cbn. intros k'. rewrite !lookup_remove.
+      destruct (eqb k' k); [exact I|]. specialize (E p). rewrite Ga, Gb in E. apply E.
+  Qed.
+
+  (* adding an entry and taking it away again gives a dataset equal to the original one (both orders) *)
+  Theorem add_then_remove_restores a p m k v : wf_ds a -> get p a = Some (PMap m) -> lookup k m = None ->
+    let a' := insert p (PMap (remove k (insert k v m))) a in equal a a' = true /\ equal a' a = true.
+  Proof.
+    intros Wa Ga L a'.
+    assert (W' : wf_ds a') by (apply wf_ds_insert; [assumption | cbn; apply wf_remove, wf_insert; apply (Wa _ _ Ga)]).
+    assert (S : ds_same a a').
+    { intros q. unfold a'. rewrite get_insert. destruct (eqb_spec q p) as [->|N].
+      - rewrite Ga. cbn. intros k'. rewrite lookup_remove, lookup_insert.
+        destruct (eqb_spec k' k) as [->|N']; [assumption | reflexivity].
+      - destruct (get q a) as [x|]; cbn; [|exact I]. destruct x; cbn; auto. }
+    assert (S0 : ds_same a a).
+    { intros q. destruct (get q a) as [x|]; cbn; [|exact I]. destruct x; cbn; auto. }
+    split.
+    - rewrite <- (equal_content_only a a a a'); auto. apply equal_refl; assumption.
+    - rewrite <- (equal_content_only a a' a a); auto. apply equal_refl; assumption.
+  Qed.
+End Congruence.
+
+(* ------------------------------------------------------------------ 12. a tolerance is not an equivalence *)
+Lemma equal_not_transitive :
+  exists a b c, equal a b = true /\ equal b c = true /\ equal a c = false /\ equal c a = false.
+Proof.
+  exists (pts1 1), (pts1 (1 + (8 # 1000000))), (pts1 (1 + (16 # 1000000))).
+  repeat split; vm_compute; reflexivity.
+Qed.
